@@ -309,3 +309,10 @@ WPK = "WholeParKey.v"
 for pid, items in (("C10", [(WPK, "w_par_lift_homU")]), ("C03", [(WPK, "w_par_swap_homU")])):
     if pid in PLAN:
         add_imports(pid, WHI + ["ModelCipher", "WholeMantis", "WholeMantisKey", "WholeParKey"]); PLAN[pid] += items
+
+# tweaked key schedules and the set_tweak functions on the key-schedule image (WholeKeyTweak.v)
+WKT = "WholeKeyTweak.v"
+KTW = [(WKT, "key_sched128_tweaked_model"), (WKT, "key_sched64_tweaked_model"), (WKT, "w_set_tweak128_model"), (WKT, "w_set_tweak64_model")]
+for pid, items in (("C04", KTW), ("C10", KTW[:2])):
+    if pid in PLAN:
+        add_imports(pid, WHI + ["ModelCipher", "ModelCtr", "WholeProc", "WholeCtr", "WholeCtrModel", "WholeKeyTweak"]); PLAN[pid] += items
